@@ -505,6 +505,16 @@ func checkXzWriter(prop string) func(a *checkArgs, r *Result) error {
 		if err := scriptedOpsTie(r, dp, rng, nscript, true); err != nil {
 			return err
 		}
+		if prop == "C02" {
+			// the translator behind Gen/GoSrc.lean (range coder, probabilities, state arithmetic) against the Go code
+			nx := 400
+			if a.tier == "thorough" {
+				nx = 4000
+			}
+			if err := xlateTie(r, dp, rand.New(rand.NewSource(a.seed+911)), nx); err != nil {
+				return err
+			}
+		}
 		if prop == "C01" {
 			afterCloseChecks(r, rng)
 			// partition independence / determinism
